@@ -604,10 +604,10 @@ Next == \/ stage = 0 /\ fam' \in FamilyIdx /\ stage' = 1 /\ UNCHANGED <<cfg, rev
 Spec == Init /\ [][Next]_vars
 
 \* Constructs of LLVM 14 that the in-memory IR of the library has no way to hold (no bfloat kind, no
-\* udiv/sdiv/urem/srem/f*/extractvalue/insertvalue constant expressions, no SHA256 checksum kind).
+\* udiv/sdiv/urem/srem/f*/extractvalue/insertvalue constant expressions; the SHA256 checksum kind was added by 42446ee).
 \* C01 requires for them an error (never a crash, never a silently altered module).
 NotRepresentable(alt) ==
-  alt \in {"bfloat", "bfloat 0xR3F80", "checksumkind: CSK_SHA256, checksum: \"000102030405060708090a0b0c0d0e0f101112131415161718191a1b1c1d1e1f\""}
+  alt \in {"bfloat", "bfloat 0xR3F80"}
            \cup {ConstNotRepr[k] : k \in 1..Len(ConstNotRepr)}
 Representable(F, c) == \A k \in 1..Len(F.slots) : ~NotRepresentable(c[F.slots[k].n])
 
